@@ -27,6 +27,12 @@
 (* (tools side, checks/x01.py), so alignment, adjacency, containment and overlap are exact and < 2^31.     *)
 EXTENDS Integers, Sequences, FiniteSets, TLC
 
+(* JitAllocator::CreateParams limits (jitallocator.h: granularity "[64..256]", block size "[64kB..256MB]"); *)
+(* constants so that the design-level model can run on a scaled-down address space                          *)
+CONSTANTS Grans,      \* valid granularities; the first default applies otherwise
+          DefGran,
+          MinBlock, MaxBlock
+
 VARIABLES
   page,     \* OS page size (from the Reset event)
   maps,     \* set of mappings [a, n, prot, obj, off, sh, huge]; obj = 0: anonymous, > 0: file object id
@@ -50,8 +56,8 @@ cvars == <<page, maps, fds, files, objsz, handles, spans, rt, vm, rtc, jit, flus
 (* ------------------------------------------------------------------------------------------------------ *)
 Chk(label, cond) == IF cond THEN {} ELSE {label}
 NoCall == [api |-> "none"]
-NoRt == [alive |-> FALSE, dual |-> FALSE, multi |-> FALSE, fill |-> FALSE, imm |-> FALSE, nopad |-> FALSE, gran |-> 64, pools |-> 1]
-Facts0 == [refused |-> FALSE, granted |-> FALSE, fail |-> FALSE, info |-> <<>>, lp |-> -1, hri |-> "unknown"]
+NoRt == [alive |-> FALSE, dual |-> FALSE, multi |-> FALSE, fill |-> FALSE, imm |-> FALSE, nopad |-> FALSE, gran |-> DefGran, pools |-> 1]
+Facts0 == [refused |-> FALSE, granted |-> FALSE, fail |-> FALSE, hard |-> 0, info |-> <<>>, lp |-> -1, hri |-> "unknown"]
 
 IsPow2(n) == n > 0 /\ \E k \in 0 .. 30 : n = 2 ^ k
 PageUp(n) == ((n + page - 1) \div page) * page
@@ -135,7 +141,9 @@ OsWhy(ev) ==
 OsEffect(ev) ==
   LET wx == ev.fn \in {"mmap", "mprotect"} /\ Wb(ev.prot) /\ Xb(ev.prot) IN
   /\ facts' = [facts EXCEPT !.refused = @ \/ (wx /\ ~ev.ok), !.granted = @ \/ (wx /\ ev.ok),
-                            !.fail = @ \/ (~ev.ok /\ ev.fn \notin {"shm_unlink", "unlink"})]
+                            !.fail = @ \/ (~ev.ok /\ ev.fn \notin {"shm_unlink", "unlink"}),
+                            \* failed requests other than a large-page mmap (for which regular pages are the fall-back)
+                            !.hard = @ + (IF ~ev.ok /\ ev.fn \notin {"shm_unlink", "unlink", "madvise"} /\ ~(ev.fn = "mmap" /\ ev.huge) THEN 1 ELSE 0)]
   /\ maps' = IF ~ev.ok THEN maps
              ELSE IF ev.fn = "mmap" THEN
                maps \cup {[a |-> ev.a, n |-> PageUp(ev.n), prot |-> ev.prot,
@@ -176,7 +184,7 @@ FlushEffect(ev) == /\ flushed' = IF rtc.api = "none" THEN flushed ELSE flushed \
 (* VirtMem API                                                                                            *)
 (* ------------------------------------------------------------------------------------------------------ *)
 VmCallWhy(ev) == Chk("vm: call inside a VirtMem call", vm.api = "none")
-VmCallEffect(ev) == /\ vm' = [api |-> ev.api, arg |-> ev, m0 |-> maps]
+VmCallEffect(ev) == /\ vm' = [api |-> ev.api, arg |-> ev, m0 |-> maps, f0 |-> facts.hard]
                     /\ UNCHANGED <<page, maps, fds, files, objsz, handles, spans, rt, rtc, jit, flushed, lastfree, facts>>
 
 New == maps \ vm.m0
@@ -209,6 +217,7 @@ AllocWhy(ev) ==
         ELSE {})
   ELSE Chk("alloc: failure, but *p is not null", ev.p = 0)
   \cup Chk("alloc: failure left the set of mappings changed", maps = vm.m0)
+  \cup Chk("alloc: failed although the arguments are valid and no OS request failed", a.n = 0 \/ a.huge \/ facts.hard > vm.f0)
 AllocHandles(ev) ==
   IF ev.r = "Ok" /\ ev.p # 0
     THEN handles \cup {[k |-> "single", rx |-> ev.p, rw |-> ev.p, n |-> IF vm.arg.n > 0 THEN vm.arg.n ELSE page, owner |-> Owner, ok |-> TRUE]}
@@ -261,6 +270,7 @@ DualWhy(ev) ==
         ELSE {"dual: no new mapping at a returned pointer"})
   ELSE Chk("dual: failure, but a pointer of dm is not null", ev.rx = 0 /\ ev.rw = 0)
   \cup Chk("dual: failure left the set of mappings changed (a view was not released)", maps = vm.m0)
+  \cup Chk("dual: failed although the arguments are valid and no OS request failed", a.n = 0 \/ facts.hard > vm.f0)
 DualHandles(ev) ==
   IF ev.r = "Ok" /\ ev.rx # 0 /\ ev.rw # 0
     THEN handles \cup {[k |-> "dual", rx |-> ev.rx, rw |-> ev.rw, n |-> IF vm.arg.n > 0 THEN vm.arg.n ELSE page, owner |-> Owner, ok |-> TRUE]}
@@ -330,7 +340,7 @@ VmRetEffect(ev) ==
 (* ------------------------------------------------------------------------------------------------------ *)
 RtCallWhy(ev) == Chk("rt: call inside a call", Quiescent)
               \cup Chk("rt: operation on a runtime that does not exist", ev.api = "new" \/ rt.alive)
-RtCallEffect(ev) == /\ rtc' = [api |-> ev.api, arg |-> ev, h0 |-> handles, s0 |-> spans, m0 |-> maps]
+RtCallEffect(ev) == /\ rtc' = [api |-> ev.api, arg |-> ev, h0 |-> handles, s0 |-> spans, m0 |-> maps, f0 |-> facts.hard]
                     /\ flushed' = {}
                     /\ UNCHANGED <<page, maps, fds, files, objsz, handles, spans, rt, vm, jit, lastfree, facts>>
 
@@ -346,9 +356,9 @@ RtNewWhy(ev) ==
                  ev.o.dual = (a.dual \/ facts.hri = "enabled"))
         \cup Chk("new: other options not as requested", ev.o.multi = a.multi /\ ev.o.fill = a.fill /\ ev.o.imm = a.imm /\ ev.o.nopad = a.nopad)
         \cup Chk("new: granularity is neither the valid request nor the default 64",
-                 ev.o.gran = (IF a.gran \in {64, 128, 256} THEN a.gran ELSE 64))
+                 ev.o.gran = (IF a.gran \in Grans THEN a.gran ELSE DefGran))
         \cup Chk("new: block size is neither the valid request nor the default",
-                 IF IsPow2(a.block) /\ a.block >= 65536 /\ a.block <= 268435456 THEN ev.o.block = a.block
+                 IF IsPow2(a.block) /\ a.block >= MinBlock /\ a.block <= MaxBlock THEN ev.o.block = a.block
                  ELSE facts.info # <<>> /\ ev.o.block = facts.info[2])
         ELSE {})
   \cup Chk("new: the runtime's target is not the host (arch, JIT object format, cpu features)", ev.target)
@@ -391,6 +401,8 @@ RtAddWhy(ev) ==
   ELSE Chk("add: failure, but dst is not null", ev.p = 0)
   \cup Chk("add: failure changed a live function", ev.intact)
   \cup Chk("add: no code, but mappings changed", a.size > 0 \/ handles = rtc.h0)
+  \cup Chk("add: failed although there is code and no request failed (a refused large-page request must fall back to regular pages)",
+           a.size = 0 \/ facts.hard > rtc.f0)
   \cup Chk("add: failure left more empty blocks than the release policy allows", EmptyPolicy(handles, spans))
 RtAddSpans(ev) == IF ev.r = "Ok" /\ ev.p # 0 THEN spans \cup {[p |-> ev.p, n |-> IF ev.qn > 0 THEN ev.qn ELSE rt.gran]} ELSE spans
 
@@ -489,6 +501,16 @@ DualIsWX == vm.api = "none" =>
                  /\ CoveredBy(maps, h.rw, h.n, LAMBDA m : ~Xb(m.prot))
 SpansOK == /\ \A s, t \in spans : s # t => (s.p + s.n <= t.p \/ t.p + t.n <= s.p)
            /\ rtc.api = "none" => \A s \in spans : \E h \in RtH(handles) : SpanIn(s, h)
-JitClosedWhenIdle == Quiescent => jit = "RX"
-CInv == NoLeakWhenIdle /\ HandlesDisjoint /\ HandleBacked /\ DualIsWX /\ SpansOK /\ JitClosedWhenIdle
+(* a client may keep a ProtectJitReadWriteScope open between calls; the runtime must not (see RtRetWhy) *)
+CInv == NoLeakWhenIdle /\ HandlesDisjoint /\ HandleBacked /\ DualIsWX /\ SpansOK
+(* the same as a set of reasons (used by the trace specification, which reports instead of stopping) *)
+InvWhy == Chk("invariant NoLeakWhenIdle violated in the state before this event", NoLeakWhenIdle)
+     \cup Chk("invariant HandlesDisjoint violated in the state before this event", HandlesDisjoint)
+     \cup Chk("invariant HandleBacked violated in the state before this event", HandleBacked)
+     \cup Chk("invariant DualIsWX violated in the state before this event", DualIsWX)
+     \cup Chk("invariant SpansOK violated in the state before this event", SpansOK)
+(* events after which the state cannot be tracked any further (the execution is abandoned) *)
+Hard(ev) == \/ ev.e \notin {"Reset", "Os", "Jit", "Flush", "VmCall", "VmRet", "RtCall", "RtRet", "End"}
+            \/ ev.e = "VmRet" /\ vm.api # ev.api
+            \/ ev.e = "RtRet" /\ rtc.api # ev.api
 =============================================================================
